@@ -120,3 +120,67 @@ fn blanket_fit_checks_first() {
     else { assert!(matches!(r, Err(FitErr::Param))); unsafe { assert!(!FIT_CALLED); } }
     kani::cover!(p.ok); kani::cover!(!p.ok);
 }
+
+// ---------- batch 3 ----------
+use crate::composing::MultiClassModel;
+use crate::dataset::Pr;
+
+#[kani::proof]
+#[kani::unwind(8)]
+#[kani::stub(alloc::fmt::format, fmt_stub)]
+fn fold_partitions_n4_k2() {
+    let v: [u8; 4] = kani::any();
+    let rec = Array2::from_shape_vec((4, 1), v.to_vec()).unwrap();
+    let tar = Array1::from(vec![10u8, 11, 12, 13]);
+    let ds = Dataset::new(rec, tar);
+    let folds = ds.fold(2);
+    assert!(folds.len() == 2);
+    // fold 0: validation rows 0,1 ; training rows 2,3
+    let (tr, va) = (&folds[0].0, &folds[0].1);
+    assert!(va.records[(0, 0)] == v[0] && va.records[(1, 0)] == v[1] && va.targets[0] == 10 && va.targets[1] == 11);
+    assert!(tr.records[(0, 0)] == v[2] && tr.records[(1, 0)] == v[3] && tr.targets[0] == 12 && tr.targets[1] == 13);
+    let (tr, va) = (&folds[1].0, &folds[1].1);
+    assert!(va.records[(0, 0)] == v[2] && va.records[(1, 0)] == v[3] && va.targets[0] == 12);
+    assert!(tr.records[(0, 0)] == v[0] && tr.records[(1, 0)] == v[1] && tr.targets[1] == 11);
+}
+
+#[kani::proof]
+#[kani::unwind(6)]
+#[kani::stub(alloc::fmt::format, fmt_stub)]
+fn feature_iter_keeps_names() {
+    let v: [u8; 4] = kani::any();
+    let rec = Array2::from_shape_vec((2, 2), v.to_vec()).unwrap();
+    let tar = Array1::from(vec![7u8, 8]);
+    let ds = Dataset::new(rec, tar).with_feature_names(vec!["a", "b"]);
+    let mut it = ds.feature_iter();
+    let f0 = it.next().unwrap();
+    let f1 = it.next().unwrap();
+    assert!(it.next().is_none());
+    assert!(f0.records.dim() == (2, 1) && f0.records[(0, 0)] == v[0] && f0.records[(1, 0)] == v[2]);
+    assert!(f1.records[(0, 0)] == v[1] && f1.records[(1, 0)] == v[3]);
+    assert!(f0.feature_names().len() == 1 && f0.feature_names()[0] == "a" && f1.feature_names()[0] == "b");
+    assert!(f1.targets[0] == 7 && f1.targets[1] == 8);
+}
+
+struct PrModel { p: [f32; 2] }
+impl PredictInplace<Array2<u8>, Array1<Pr>> for PrModel {
+    fn predict_inplace<'a>(&'a self, x: &'a Array2<u8>, y: &mut Array1<Pr>) {
+        for i in 0..x.nrows() { y[i] = Pr::new_unchecked(self.p[i]); }
+    }
+    fn default_target(&self, x: &Array2<u8>) -> Array1<Pr> { Array1::default(x.nrows()) }
+}
+#[kani::proof]
+#[kani::unwind(6)]
+#[kani::stub(alloc::fmt::format, fmt_stub)]
+fn multi_class_argmax() {
+    let pa: [f32; 2] = kani::any(); let pb: [f32; 2] = kani::any(); let pc: [f32; 2] = kani::any();
+    for i in 0..2 { kani::assume(pa[i] >= 0.0 && pa[i] <= 1.0 && pb[i] >= 0.0 && pb[i] <= 1.0 && pc[i] >= 0.0 && pc[i] <= 1.0); }
+    let x = Array2::from_shape_vec((2, 1), vec![0u8, 1]).unwrap();
+    let mc: MultiClassModel<Array2<u8>, u8> = vec![(1u8, PrModel { p: pa }), (2u8, PrModel { p: pb }), (3u8, PrModel { p: pc })].into_iter().collect();
+    let y: Array1<u8> = mc.predict(&x);
+    for i in 0..2 {
+        let best = pa[i].max(pb[i]).max(pc[i]);
+        let got = if y[i] == 1 { pa[i] } else if y[i] == 2 { pb[i] } else { pc[i] };
+        assert!(y[i] >= 1 && y[i] <= 3 && got == best);
+    }
+}
